@@ -92,3 +92,9 @@ package repository
 //@   loop 1
 //@     invariant 0 <= rangepos && rangepos <= len(*h)
 //@     invariant forall k int :: { (*h)[k] } 0 <= k && k < rangepos ==> isLowerHex((*h)[k])
+
+// remotes: the configured git remotes (name -> url), ghost (C14).
+//@ ghost var remotes map[string]string
+//@ func RepoCommon.GetRemotes
+//@   modifies nothing
+//@   ensures [remotes] result1 == nil ==> result != nil && (forall r string :: { (r in result) } (r in result) == (r in remotes))
